@@ -64,6 +64,9 @@ THEOREMS = [
     'CpProofs.C19.latin1_roundtrip',
     'CpProofs.C19.tryDecodeHeader_latin1',
     'CpProofs.C19.digest_rfc2617_client_latin1',
+    'CpProofs.C19.latin1_enc_dec',
+    'CpProofs.C19.tryDecodeHeader_utf8',
+    'CpProofs.C19.digest_rfc2617_client_utf8',
     'CpProofs.C19.tools_hooked',
 ]
 LEVEL = 'proof'
